@@ -187,7 +187,7 @@ func (x iface) eq(t types.Type, _y interface{}) bool {
 	}
 	// Go decides comparability by the dynamic type, before looking at any value: two interface values of
 	// one uncomparable dynamic type panic even if an early field already differs
-	if !types.Comparable(x.t) {
+	if _, isRT := x.v.(rtype); !isRT && !types.Comparable(x.t) { // (reflect.Type values are pointers in Go, a value type here)
 		panic(targetRuntimeError(fmt.Sprintf("comparing uncomparable type %s", x.t)))
 	}
 	return equals(x.t, x.v, y.v)
